@@ -121,7 +121,11 @@ func runCase(idx int, raw json.RawMessage) batch.Result {
 		return batch.Result{Inconcl: "case does not decode: " + err.Error()}
 	}
 	for attempt := 0; attempt < 4; attempt++ {
+		t := time.Now()
 		res, stalled := runOnce(c)
+		if os.Getenv("VERIF_C24_TRACE") != "" {
+			fmt.Fprintf(os.Stderr, "attempt %d took %v stalled=%v\n", attempt, time.Since(t), stalled)
+		}
 		if !stalled {
 			return res
 		}
@@ -153,7 +157,11 @@ func runOnce(c ccase) (res batch.Result, stalled bool) {
 	defer func() {
 		for _, x := range cs {
 			if x.s != nil {
+				t := time.Now()
 				sess2.Teardown(x.s)
+				if os.Getenv("VERIF_C24_TRACE") != "" {
+					fmt.Fprintf(os.Stderr, "teardown took %v closed=%v state=%s\n", time.Since(t), x.s.Conn.IsClosed(), x.s.State())
+				}
 			}
 		}
 	}()
@@ -184,7 +192,7 @@ func runOnce(c ccase) (res batch.Result, stalled bool) {
 		res.Count("sync_points", 1)
 		if n > 1 {
 			found = true
-			res.Add("two-established"+suf, feat, "%s: after %s %d FSMs of the peer are Established on connections bio-rd has not closed (%s); Loc-RIB clients %d", where, step, n, strings.Join(desc, ", "), srv.ClientCount(true))
+			res.Add("two-established"+suf, vf.F("mode", c.Mode), "%s: after %s %d FSMs of the peer are Established on connections bio-rd has not closed (%s); Loc-RIB clients %d", where, step, n, strings.Join(desc, ", "), srv.ClientCount(true))
 			return
 		}
 		// contributions
@@ -198,7 +206,7 @@ func runOnce(c ccase) (res batch.Result, stalled bool) {
 		}
 		if have[1] && have[2] {
 			found = true
-			res.Add("both-contribute"+suf, feat, "%s: after %s the Loc-RIB holds the routes announced on connection 1 and on connection 2 (%s)", where, step, strings.Join(desc, ", "))
+			res.Add("both-contribute"+suf, vf.F("mode", c.Mode), "%s: after %s the Loc-RIB holds the routes announced on connection 1 and on connection 2 (%s)", where, step, strings.Join(desc, ", "))
 		}
 	}
 
@@ -212,7 +220,12 @@ func runOnce(c ccase) (res batch.Result, stalled bool) {
 		}
 	}
 
+	trace := os.Getenv("VERIF_C24_TRACE") != ""
+	t0 := time.Now()
 	for _, ev := range c.Order {
+		if trace {
+			fmt.Fprintf(os.Stderr, "%v before %s\n", time.Since(t0), ev)
+		}
 		k := ev[1]
 		x := cs[k]
 		for _, y := range cs {
